@@ -237,6 +237,15 @@ def gatherOpt (xs : Option (List Nat)) (site : String) (perm : List Nat) : Excep
     | .error e => .error e
     | .ok r => .ok (some r)
 
+/-- `sorted_position = np.argsort(indices_sort)`; `for i: unique_inverse[i] = sorted_position[unique_inverse[i]]`
+    (fix D21; as found the loop indexed `indices_sort` itself) -/
+def remapInverse (perm : List Nat) : Option (List Nat) → Except Err (Option (List Nat))
+  | none => .ok none
+  | some inv =>
+    match gather (npArgsortNat perm) "unique:sorted_position[unique_inverse[i]]" inv with
+    | .error e => .error e
+    | .ok r => .ok (some r)
+
 /-- `unique_for_indexed_string(indices, values, return_index, return_inverse, return_counts)` (D21 repaired) -/
 def uniqueForIndexedString (indices : List Nat) (values : Bytes) (ri rv rc : Bool) :
     Except Err (UniqueResult Bytes) :=
@@ -250,13 +259,7 @@ def uniqueForIndexedString (indices : List Nat) (values : Bytes) (ri rv rc : Boo
       match gatherOpt o.index "unique:unique_index[indices_sort]" perm with
       | .error e => .error e
       | .ok idx =>
-        -- sorted_position = np.argsort(indices_sort); unique_inverse[i] = sorted_position[unique_inverse[i]]
-        match (match o.inverse with
-               | none => Except.ok none
-               | some inv =>
-                 match gather (npArgsortNat perm) "unique:sorted_position[unique_inverse[i]]" inv with
-                 | .error e => .error e
-                 | .ok r => .ok (some r)) with
+        match remapInverse perm o.inverse with
         | .error e => .error e
         | .ok inv =>
           match gatherOpt o.counts "unique:unique_counts[indices_sort]" perm with
